@@ -7,6 +7,23 @@ HERE = os.path.dirname(os.path.dirname(os.path.abspath(__file__)))
 
 # property id -> (technique, level text, level note, design ref) ; only built checks are listed
 CHECKS = {
+    'C01': ('exhaustive enumeration of request texts (all token strings up to a length bound, the full product of member '
+            'alphabets, lexical edge literals) on the real dispatchers; invariant checked on every execution',
+            'Every string of <= 4/6 tokens over a 12-token JSON-RPC alphabet, the full product jsonrpc x id x method x '
+            'params x extra-member for single objects, all arrays up to length 3/4 over a 14-element alphabet under '
+            'max_batch_size {None,0,1,2,n}, and integer/float/escape/nesting/whitespace edge literals at 14 positions, '
+            'for both dispatchers: dispatch never raises and returns nothing or (strict-JSON response document, matching codes).',
+            'trusted: the strict RFC 8259 recogniser mc/jsonstrict.py (self-tested against json.loads) and the wire '
+            'predicates mc/refmodel/wire.py; texts outside the alphabets / bounds are not covered',
+            'DESIGN.md section 5, C01'),
+    'C03': ('exhaustive enumeration of the failure table (protocol errors x exception types x placement) and of the C01 text '
+            'corpora on the real dispatchers, lock-step with the reference server model',
+            'All protocol errors over 12 codes x 3 messages x 11 data shapes (base class, registered subclass, standard '
+            'classes) and 13 exception types, as call / notification / at each batch position, sync / async / plain function '
+            'under the async dispatcher; plus every C01 text judged by the strict JSON recogniser and the reference server: '
+            'codes -32700/-32600/-32601/-32602/-32000 as specified, application errors verbatim, no exception detail in the response.',
+            'trusted: mc/jsonstrict.py, mc/refmodel/server.py; message/data of library-generated errors are unconstrained (L4)',
+            'DESIGN.md section 5, C03'),
     'C02': ('exhaustive product enumeration of request documents on the real dispatchers, lock-step with a '
             'reference server model (explicit-state, stateless)',
             'Every single request over 7 element kinds x 15 id typings and every batch up to length 3 (quick) / 4 '
